@@ -37,7 +37,7 @@ func init() {
 func oracleC12Flat(l *harness.Live) ([]int, *harness.Failure) {
 	want, err := refNodes(l)
 	if err != nil {
-		return nil, harness.Failf("reference evaluates", err.Error(), "generator left the reference fragment")
+		return nil, refFailure(err)
 	}
 	ids, f := engineSelect(l)
 	if f != nil {
@@ -248,6 +248,7 @@ func TestC12Flat(t *testing.T) {
 			o.NS = &xgen.NSOpts{Prefixes: []string{"", "p", "p", "q"}, URIs: []string{"", "u"}}
 			o.ElNames = []string{"a", "b"}
 		}
+		shape := xgen.Shape(rt, &o)
 		doc := xgen.Doc(rt, o)
 		ctx := xgen.Context(rt, doc, 4)
 		g := xgen.NewG(rt, doc)
@@ -268,6 +269,7 @@ func TestC12Flat(t *testing.T) {
 		if prefixed {
 			labels = append(labels, "doc:prefixed-names")
 		}
+		labels = append(labels, shape)
 		uC12Flat.Case(harness.Mix(doc.Hash(), uint64(ctx.ID), harness.Hash64(l.Expr)), len(ids) >= 2, labels, func() interface{} {
 			return l.Sample("sequence", describe(doc, ids))
 		})
